@@ -452,6 +452,69 @@ ENVIRONMENTS = {
 }
 
 
+class GlobalStateSpy:
+    """Records calls that change process-global interpreter state (warning filters, locale, time zone, environment, random seed, recursion limit,
+    socket default timeout, logging configuration, current directory, ...) made DIRECTLY by code of /repo's webauthn package while it is active.
+    The formal model consists of pure functions of the arguments, the clock and the random source; library code that re-configures the process
+    is outside it, and is the mechanism by which one thread's call can change another's outcome (none of these settings is per-thread)."""
+
+    TARGETS = [("warnings", "simplefilter"), ("warnings", "filterwarnings"), ("warnings", "resetwarnings"), ("warnings.catch_warnings", "__enter__"),
+               ("locale", "setlocale"), ("time", "tzset"), ("os", "putenv"), ("os", "unsetenv"), ("os", "chdir"), ("os", "umask"), ("random", "seed"), ("sys", "setrecursionlimit"),
+               ("sys", "setswitchinterval"), ("sys", "settrace"), ("sys", "setprofile"), ("socket", "setdefaulttimeout"), ("logging", "disable"), ("logging", "basicConfig"),
+               ("decimal", "setcontext"), ("gc", "disable"), ("gc", "enable"), ("gc", "freeze"), ("signal", "signal"), ("threading", "settrace"), ("threading", "setprofile"),
+               ("os._Environ", "__setitem__"), ("os._Environ", "__delitem__"), ("sys", "set_int_max_str_digits"), ("faulthandler", "enable"), ("resource", "setrlimit"), ("os", "nice")]
+
+    def __init__(self, repo=None):
+        self.repo = os.path.join(repo or os.environ.get("VERIF_REPO", "/repo"), "webauthn") + os.sep
+        self.calls = []
+        self.saved = []
+
+    def __enter__(self):
+        import importlib
+        for modpath, attr in self.TARGETS:
+            try:
+                parts = modpath.split(".")
+                holder = importlib.import_module(parts[0])
+                for p in parts[1:]:
+                    holder = getattr(holder, p)
+                orig = getattr(holder, attr)
+            except Exception:
+                continue
+            def wrapper(*a, __orig=orig, __name=f"{modpath}.{attr}", **kw):
+                try:
+                    f = sys._getframe(1)
+                    fn = f.f_code.co_filename
+                    if fn.startswith(self.repo):
+                        self.calls.append({"call": __name, "from": fn[len(self.repo) - len("webauthn") - 1:] + f":{f.f_lineno}", "function": f.f_code.co_name})
+                except Exception:
+                    pass
+                return __orig(*a, **kw)
+            try:
+                setattr(holder, attr, wrapper)
+                self.saved.append((holder, attr, orig))
+            except Exception:
+                pass
+        return self
+
+    def __exit__(self, *exc):
+        for holder, attr, orig in reversed(self.saved):
+            try:
+                setattr(holder, attr, orig)
+            except Exception:
+                pass
+        return False
+
+    def report(self, chk):
+        seen = set()
+        for c in self.calls:
+            k = (c["call"], c["from"])
+            if k in seen:
+                continue
+            seen.add(k)
+            chk.diverge("the library is a set of pure functions of arguments, clock and OS random source (it does not re-configure the process)",
+                        f"{c['from']} ({c['function']}) calls {c['call']}: process-global state that other threads' calls and later calls depend on", c)
+
+
 def size_ladder(cap=None, floor=0):
     """Sizes / counts at which an unbounded quantity is exercised: one past each power-of-two-ish bound a "reasonable limit" could sit at, plus the
     neighbours of every NEW integer literal of the changed source (harness/srcdict.py).  The properties bound none of these quantities."""
